@@ -125,17 +125,32 @@ func runC12(tier string) int {
 			jobs = append(jobs, job{p, l})
 		}
 	}
-	done := r.Parallel(uint64(len(jobs)), func(w int, ji uint64) {
-		j := jobs[ji]
+	// flatten (job, content combination) into one index space so that a case is one small program family
+	offsets := make([]uint64, len(jobs)+1)
+	for ji, j := range jobs {
+		nc := uint64(len(positions[j.pos].contents))
+		combos := uint64(1)
+		for i := 0; i < len(lists[j.list]); i++ {
+			combos *= nc * 2
+		}
+		offsets[ji+1] = offsets[ji] + combos
+	}
+	done := r.Parallel(offsets[len(jobs)], func(w int, flat uint64) {
+		lo, hi := 0, len(jobs)
+		for lo+1 < hi {
+			mid := (lo + hi) / 2
+			if offsets[mid] <= flat {
+				lo = mid
+			} else {
+				hi = mid
+			}
+		}
+		j := jobs[lo]
 		pos := positions[j.pos]
 		labels := lists[j.list]
 		k := len(labels)
 		nc := len(pos.contents)
-		combos := 1
-		for i := 0; i < k; i++ {
-			combos *= nc * 2
-		}
-		for c := 0; c < combos; c++ {
+		for c := int(flat - offsets[lo]); c >= 0; c = -1 {
 			x := c
 			cases := make([]string, k)
 			sels := make([]string, k)
